@@ -1,8 +1,9 @@
 // Package c18: correspondence driver for C18 (the execution rate limit from `settings`).
 //
-// Two kinds of cases.  Operator level (op.go): the real operator with settings in the
+// Kinds of cases.  Operator level (op.go): the real operator with settings in the
 // hooks' configurations, scripted executions that succeed or FAIL, and a count of what
-// starts.  Limiter level (this file): a case writes a v1 hook configuration with a `settings:` block, loads it with the real
+// starts; timed operator level (timed.go: short intervals, sleepers wake up; held.go: a queue
+// shared by several hooks is held while events keep arriving).  Limiter level (this file): a case writes a v1 hook configuration with a `settings:` block, loads it with the real
 // Hook.LoadConfig (HookConfig.LoadAndValidate + CreateRateLimiter), and then drives the
 // real *rate.Limiter the hook got with ReserveN(t, 1) on a SYNTHETIC clock (time.Time
 // values chosen by the generator).  A second hook instance loaded from the same text is
@@ -43,14 +44,22 @@ type Input struct {
 	Op *OpIn `json:"op,omitempty"`
 	// timed operator-level case (timed.go)
 	Timed *TimedIn `json:"timed,omitempty"`
+	// timed operator-level case with a shared queue that is held (held.go)
+	Held *HeldIn `json:"held,omitempty"`
 	// Seq is the list delta debugging may shorten (Spec.ShrinkKey): a mirror of Arrivals
-	// (limiter level), of Op.Acts (operator level) or of Timed.Plan, written by Explicit into every recorded
+	// (limiter level), of Op.Acts (operator level), of Timed.Plan or of Held.Plan, written by Explicit into every recorded
 	// input; when present it wins over the list it mirrors.
 	Seq []json.RawMessage `json:"seq,omitempty"`
 }
 
 // MarshalJSON keeps operator-level inputs free of the limiter-level members.
 func (in Input) MarshalJSON() ([]byte, error) {
+	if in.Held != nil {
+		return json.Marshal(struct {
+			Held *HeldIn           `json:"held"`
+			Seq  []json.RawMessage `json:"seq,omitempty"`
+		}{in.Held, in.Seq})
+	}
 	if in.Timed != nil {
 		return json.Marshal(struct {
 			Timed *TimedIn          `json:"timed"`
@@ -70,6 +79,19 @@ func (in Input) MarshalJSON() ([]byte, error) {
 // normalize applies Seq (see Input).
 func normalize(in Input) Input {
 	if in.Seq == nil {
+		return in
+	}
+	if in.Held != nil {
+		t := *in.Held
+		t.Plan = nil
+		for _, raw := range in.Seq {
+			var a HStep
+			if json.Unmarshal(raw, &a) == nil {
+				t.Plan = append(t.Plan, a)
+			}
+		}
+		in.Held = &t
+		in.Seq = nil
 		return in
 	}
 	if in.Timed != nil {
@@ -116,6 +138,13 @@ func normalize(in Input) Input {
 // instead of a seed, and Seq.
 func Explicit(in Input, obs *Obs) Input {
 	in = normalize(in)
+	if in.Held != nil {
+		for _, a := range in.Held.Plan {
+			b, _ := json.Marshal(a)
+			in.Seq = append(in.Seq, b)
+		}
+		return in
+	}
 	if in.Timed != nil {
 		for _, a := range in.Timed.Plan {
 			b, _ := json.Marshal(a)
@@ -157,6 +186,7 @@ type Obs struct {
 	ConcErr int       `json:"conc_err,omitempty"`
 	Op      *OpObs    `json:"op,omitempty"`
 	Timed   *TimedObs `json:"timed,omitempty"`
+	Held    *HeldObs  `json:"held,omitempty"`
 }
 
 var base = time.Unix(1_700_000_000, 0)
@@ -170,6 +200,10 @@ func load(cfg string) (*hook.Hook, error) {
 func Run(in Input) Obs {
 	var o Obs
 	in = normalize(in)
+	if in.Held != nil {
+		o.Held = runHeld(*in.Held)
+		return o
+	}
 	if in.Timed != nil {
 		o.Timed = runTimed(*in.Timed)
 		return o
@@ -282,6 +316,13 @@ func coqActs(xs []*int64) string {
 
 func Render(in Input, obs *Obs, crash string) core.Case {
 	in = normalize(in)
+	if in.Held != nil {
+		var ho *HeldObs
+		if obs != nil {
+			ho = obs.Held
+		}
+		return renderHeld(*in.Held, ho, crash)
+	}
 	if in.Timed != nil {
 		var to *TimedObs
 		if obs != nil {
@@ -748,6 +789,10 @@ func Gen(r *core.Rng, tier string) ([]core.In[Input], bool) {
 	var ins []core.In[Input]
 	// the timed operator-level scenarios first: a violation is then reported at the level the
 	// property speaks about (executions of a hook that started)
+	for _, hc := range HeldCorpus() {
+		hc := hc
+		ins = append(ins, core.In[Input]{Input: Input{Held: &hc}, Stream: "corpus"})
+	}
 	for _, tc := range TimedCorpus() {
 		tc := tc
 		ins = append(ins, core.In[Input]{Input: Input{Timed: &tc}, Stream: "corpus"})
@@ -762,14 +807,14 @@ func Gen(r *core.Rng, tier string) ([]core.In[Input], bool) {
 	// operator-level scenarios (their own PRNG stream, so that the limiter-level stream is the
 	// one it always was)
 	n, maxN, nOp, maxSteps := 400, 40, 90, 16
-	nConc, nTimed := 24, 30
+	nConc, nTimed, nHeld := 24, 30, 18
 	switch tier {
 	case "thorough":
 		n, maxN, nOp, maxSteps = 20000, 60, 1500, 24
-		nConc, nTimed = 400, 400
+		nConc, nTimed, nHeld = 400, 400, 400
 	case "search":
 		n, maxN, nOp, maxSteps = 3000, 40, 300, 20
-		nConc, nTimed = 80, 100
+		nConc, nTimed, nHeld = 80, 100, 100
 	}
 	var lim, ops []core.In[Input]
 	for i := 0; i < n; i++ {
@@ -793,7 +838,19 @@ func Gen(r *core.Rng, tier string) ([]core.In[Input], bool) {
 	// each), again on their own PRNG stream; they are spread among the operator scenarios
 	rt := ro.Fork()
 	var slow []core.In[Input]
-	for i := 0; i < nTimed || i < nConc; i++ {
+	// shared queues that are held: their own PRNG stream again (the older streams stay what they were)
+	rh := ro.Fork()
+	if tier == "thorough" {
+		for _, hc := range HeldGrid() {
+			hc := hc
+			slow = append(slow, core.In[Input]{Input: Input{Held: &hc}, Stream: "held-grid"})
+		}
+	}
+	for i := 0; i < nTimed || i < nConc || i < nHeld; i++ {
+		if i < nHeld {
+			hc := genHeld(rh)
+			slow = append(slow, core.In[Input]{Input: Input{Held: &hc}, Stream: "held-shared-queue"})
+		}
 		if i < nTimed {
 			tc := genTimed(rt)
 			slow = append(slow, core.In[Input]{Input: Input{Timed: &tc}, Stream: "timed"})
@@ -835,6 +892,6 @@ func Gen(r *core.Rng, tier string) ([]core.In[Input], bool) {
 
 var Driver = core.Driver[Input, Obs]{
 	Spec: core.Spec{Property: "C18", Imports: []string{"C18_Model", "C18_Spec", "C18_Corr"}, Corr: "C18_Corr", Triggers: nil, ShrinkKey: "seq",
-		Rule: "TIMED OPERATOR LEVEL (tag class:timed): the real operator with SHORT intervals (I 100-200 ms, B 1-3): a limited hook with schedule bindings in 2-3 DIFFERENT queues fed by one crontab or by crontabs fired a few ms apart (a second hook, with or without settings, may share crontabs and queues), 6-20 ticks, some with a pause that refills the bucket; executions end as soon as they are seen; several queue workers sleep in the limiter of ONE hook at once and wake up during the scenario; start instants are those at which the driver SEES the start (late, never early); P is the window bound for every window that begins at an anchor (an instant at which no execution was under way) and ends at an observed start - no tolerance; three modes: exact (~50%: a tick is issued only when the queues it feeds are empty, no crontab feeds two queues of one limited hook, and the next tick waits until the limiters have registered the requests - Limiter.TokensAt - so the workers ask in the order of the ticks) is also compared with the model run on the observed tick instants: same number of starts per hook, k-th start never earlier than the model's; wait (~20%: one crontab may feed two queues of a hook at once) and pile (~30%: ticks pile up behind the sleepers and are combined) are judged by P only; non-trivial = limited hook in >= 2 queues, >= 4 executions, >= 2 workers seen asleep in one hook's limiter at once; distinct = distinct (hooks, settings, plan).  CONCURRENT WAITERS (tag concurrent-waiters): limiter level with I 20-120 ms, B 1-3: B+2..B+4 goroutines call Hook.RateLimitWait(context.Background()) of one freshly loaded hook at once; the instants of their returns are judged by the same anchored bound and must not be earlier than the model's stacked grants (0 x B, I, 2I, ...); non-trivial = at least two waiters slept.  OPERATOR LEVEL (tag class:operator): the real operator in-process on a fake cluster with 1-3 v1 hooks, each with settings (I >= 30 s, B 1..4) or without, onStartup / schedule / kubernetes bindings in main or named queues shared between hooks or not; a script of Boot / Tick / KubeEv / Finish ok / Finish FAIL (30-75% of the finishes; allowFailure on some bindings) chosen from the observable state; the queues' back-off is 0-3 ms (TaskQueue.ExponentialBackoffFn); after every action queues, open executions, unlocked monitors and the queues waiting in Hook.RateLimitWait (positively observed through Limiter.Tokens()) are compared with the model, every execution start is recorded with its measured instant and P (window bound per hook with settings; no waiting for hooks without) is evaluated on them; non-trivial = a limited hook, >= 4 actions of >= 2 kinds, >= 2 executions and a worker seen waiting in the limiter; distinct = distinct (hooks, settings, script).  LIMITER LEVEL (tag class:limiter): a v1 hook configuration with a generated settings block (I as a Go duration string, B an integer; keys absent / 0 / negative / out of int32 at a low rate; YAML and JSON renderings; with onStartup, schedule or kubernetes bindings) is loaded by the real Hook.LoadConfig; the *rate.Limiter it builds is driven with ReserveN(t,1) on a synthetic clock (patterns: burst, steady, bursts+pauses, random, long-pause, jitter, unsorted) and, for unlimited hooks and I >= 10s, Hook.RateLimitWait is probed B+2 times with a 50 ms deadline on the wall clock; non-trivial = accepted configuration, >= 3 requests and (limited => at least one request delayed); distinct = distinct (settings, arrivals, probe size)"},
+		Rule: "SHARED QUEUE HELD (tag class:held): the real operator with SHORT intervals (I 100-200 ms, B 1-3): a hook with settings shares ONE queue (main or named) with an interleaving hook on the same crontab (their tasks alternate, nothing is combined) and with a holder whose executions the driver keeps open - optionally after a first run that fails, so that the queue sits in a 60-180 ms back-off too - for 1.2-2.5 intervals and more while 2-5 ticks for the limited hook arrive (steady at / faster than / slower than the permitted rate, burst, random); then the execution is released and the piled-up tasks are served; 1-2 such phases; thorough tier: also the grid B 1-3 x 5 arrival patterns x 2/4 events x main/named queue x back-off 0/120 ms (stream held-grid); variants: the interleaver or the limited hook itself is the slow one, the other hooks have limits of their own, the limited hook has a second binding in another queue; recorded per execution: queue, hook, the REAL task.GetQueuedAt(), the instant the start was SEEN, the instant (taken before the reply) the driver let it end; P = the window bound for every window that begins at an anchor valid for the hook (instant taken first, then every queue of the hook found empty or blocked inside an execution the driver holds open; in particular the instant just before each release) and ends at a seen start - no tolerance; cases with all bindings in one queue are also compared with the queue-level model C18_Model.serve run on the observed executions with the real queued-at and release instants: no start seen earlier than the model starts it; non-trivial = limited hook shares the queue, queue held longer than I, >= 2 tasks of one limited hook waiting at a release, an anchor taken at a release, >= 4 executions; distinct = distinct (hooks, settings, slow set, back-off, plan).  TIMED OPERATOR LEVEL (tag class:timed): the real operator with SHORT intervals (I 100-200 ms, B 1-3): a limited hook with schedule bindings in 2-3 DIFFERENT queues fed by one crontab or by crontabs fired a few ms apart (a second hook, with or without settings, may share crontabs and queues), 6-20 ticks, some with a pause that refills the bucket; executions end as soon as they are seen; several queue workers sleep in the limiter of ONE hook at once and wake up during the scenario; start instants are those at which the driver SEES the start (late, never early); P is the window bound for every window that begins at an anchor (an instant at which no execution was under way) and ends at an observed start - no tolerance; three modes: exact (~50%: a tick is issued only when the queues it feeds are empty, no crontab feeds two queues of one limited hook, and the next tick waits until the limiters have registered the requests - Limiter.TokensAt - so the workers ask in the order of the ticks) is also compared with the model run on the observed tick instants: same number of starts per hook, k-th start never earlier than the model's; wait (~20%: one crontab may feed two queues of a hook at once) and pile (~30%: ticks pile up behind the sleepers and are combined) are judged by P only; non-trivial = limited hook in >= 2 queues, >= 4 executions, >= 2 workers seen asleep in one hook's limiter at once; distinct = distinct (hooks, settings, plan).  CONCURRENT WAITERS (tag concurrent-waiters): limiter level with I 20-120 ms, B 1-3: B+2..B+4 goroutines call Hook.RateLimitWait(context.Background()) of one freshly loaded hook at once; the instants of their returns are judged by the same anchored bound and must not be earlier than the model's stacked grants (0 x B, I, 2I, ...); non-trivial = at least two waiters slept.  OPERATOR LEVEL (tag class:operator): the real operator in-process on a fake cluster with 1-3 v1 hooks, each with settings (I >= 30 s, B 1..4) or without, onStartup / schedule / kubernetes bindings in main or named queues shared between hooks or not; a script of Boot / Tick / KubeEv / Finish ok / Finish FAIL (30-75% of the finishes; allowFailure on some bindings) chosen from the observable state; the queues' back-off is 0-3 ms (TaskQueue.ExponentialBackoffFn); after every action queues, open executions, unlocked monitors and the queues waiting in Hook.RateLimitWait (positively observed through Limiter.Tokens()) are compared with the model, every execution start is recorded with its measured instant and P (window bound per hook with settings; no waiting for hooks without) is evaluated on them; non-trivial = a limited hook, >= 4 actions of >= 2 kinds, >= 2 executions and a worker seen waiting in the limiter; distinct = distinct (hooks, settings, script).  LIMITER LEVEL (tag class:limiter): a v1 hook configuration with a generated settings block (I as a Go duration string, B an integer; keys absent / 0 / negative / out of int32 at a low rate; YAML and JSON renderings; with onStartup, schedule or kubernetes bindings) is loaded by the real Hook.LoadConfig; the *rate.Limiter it builds is driven with ReserveN(t,1) on a synthetic clock (patterns: burst, steady, bursts+pauses, random, long-pause, jitter, unsorted) and, for unlimited hooks and I >= 10s, Hook.RateLimitWait is probed B+2 times with a 50 ms deadline on the wall clock; non-trivial = accepted configuration, >= 3 requests and (limited => at least one request delayed); distinct = distinct (settings, arrivals, probe size)"},
 	Gen: Gen, Run: Run, Render: Render, Explicit: Explicit, PerShard: 130, Workers: 8, CaseTimout: 20 * time.Second,
 }
